@@ -5,11 +5,12 @@ from types import SimpleNamespace
 
 import numpy as np
 
-from common import F, qtok, ztok, Toks
+from common import F, qtok, ztok, zlist, Toks
+import seqmodel as sm
 import gradops_lib as gl
 
 ID = 'C18'
-GEN_SECTIONS = ['GenGradOps', 'FP_gradops18']
+GEN_SECTIONS = ['GenGradOps', 'FP_gradops18', 'FP_event_lib', 'FP_get_block']
 COQ_TARGETS = ['Props/C18.vo']
 EXTRACT_TARGETS = ['Extract/Ex_gradops.vo']
 RUNNER = 'gradops'
@@ -22,11 +23,18 @@ MANIFEST = {
             "0 / D-len / (D-len)/2 with D the longest delay+length and changes nothing else, a right-aligned delay is "
             "never negative on success. Constants and patterns (raster rounding, t_eps, digits, spec order) are re-read "
             "from the source on every run; the extracted model is run against the implementation on all gradient kinds x "
-            "delays x every raster cut time x factors x mixed-event alignments; mod_grad_axis/flip_grad_axis are checked by "
-            "decoding every block before/after (cold and warm cache), arguments are snapshotted.",
+            "delays x every raster cut time x factors x mixed-event alignments. mod_grad_axis/flip_grad_axis are modelled "
+            "on the sequence store (Model/ModAxis.v): every block decodes to the input's decode with the gradient on that "
+            "channel rescaled and nothing else changed, shared ids are refused without change, key collisions created by "
+            "the rescaling are invisible to decode; the model is run on the real store of generated sequences (library, "
+            "key map, cache) and the implementation is decoded before/after (cold and warm cache). For off-raster "
+            "trapezoids split_gradient's parts add up to the rounded trapezoid iff the rounding keeps the total duration; "
+            "the discrepancy (ramp-down displaced by total - rounded total) is proved and checked. Arguments are "
+            "snapshotted; functions with an optional system are also called through the library default "
+            "(Opts.set_as_default).",
     'note': 'Trusted: Coq kernel; translator patterns; extraction + driver; binary64 arithmetic is outside the model '
-            '(tolerance 1e-9 relative); mod_grad_axis/flip_grad_axis and the non-modification of arguments are checked '
-            'by the harness only (aliasing is not expressible in the model). KF-9 (arbitrary gradients in '
+            '(tolerance 1e-9 relative); the non-modification of arguments is checked by the harness only (aliasing is '
+            'not expressible in the model). KF-9 (arbitrary gradients in '
             'split_gradient_at) and split_gradient on a triangle are recorded findings.',
     'technique': 'Rocq/Coq proof over a Gallina model (piecewise-linear algebra, induction over corner lists / event '
                  'lists) + extraction-based correspondence + exact-Fraction rendering oracle',
@@ -42,13 +50,14 @@ RULE = ('streams: scale (all kinds x 12 factors), split3 (trapezoids on/off rast
         'Oracle = exact-Fraction rendering at corner times, +-raster/8, midpoints; field-by-field equality of everything '
         'else; deepcopy snapshots of the arguments. non-trivial = the call returned parts / events (not an error)')
 TRUSTED = ['binary64 arithmetic of NumPy is outside the model: sampled by correspondence (tolerance 1e-9*scale+1e-12)',
-           'mod_grad_axis/flip_grad_axis and "inputs are not modified": checked on the implementation only',
+           '"inputs are not modified": checked on the implementation only',
+           'mod_grad_axis model: library rows travel as shortest-decimal rationals; products are compared to 1e-12',
            'np.interp is modelled as linear interpolation with end-value extension']
 ASSUMPTIONS = ['cut times exactly at the start of the gradient (t = delay) or at t <= 0 are boundary inputs: either an '
                'error or a correct split is accepted',
                'split_gradient_at on extended trapezoids assumes the C05 rule (non-zero first value => zero delay)',
-               'off-raster trapezoids: only model agreement and non-modification are checked (the parts then add up '
-               'to the raster-rounded trapezoid only when the total duration is unchanged by the rounding)']
+               'off-raster trapezoids: the parts are compared with the raster-rounded trapezoid plus the proved '
+               'displacement of the ramp-down (C18_split_discrepancy)']
 
 MAXG = 2e6
 MAXS = 2e10
@@ -326,7 +335,7 @@ def run_split3(ctx, cases):
         before = gl.snap(g)
         line = 'go.split %s %s' % (gl.enc_sys(system), gl.enc_grad(g))
         try:
-            parts = pp.split_gradient(g, system)
+            parts = gl.call_with_default(system, c.get('default_sys'), pp.split_gradient, g)
             err = None
         except Exception as e:
             parts, err = None, e
@@ -369,6 +378,33 @@ def run_split3(ctx, cases):
         if len(parts) != 3 or any(p.type != 'grad' or p.channel != g.channel for p in parts):
             ctx.fail('C18/split-shape', c, {'result': repr(parts)[:300]})
             continue
+        if c.get('offraster') and min(F(g.rise_time), F(g.flat_time), F(g.fall_time)) > 0:
+            # C18_split_discrepancy: the parts miss the ROUNDED trapezoid (= the argument after the call) by the
+            # displacement of the ramp-down by d = total - rounded total
+            rt = gl.corners(g, raster)
+            pl = [gl.corners(p, raster) for p in parts]
+            tot = F(before.delay) + F(before.rise_time) + F(before.flat_time) + F(before.fall_time)
+            j1r = F(g.delay) + F(g.rise_time)
+            j2r = j1r + F(g.flat_time)
+            dsh = tot - (j2r + F(g.fall_time))
+            ramp = [(Fraction(0), F(g.amplitude)), (F(g.fall_time), Fraction(0))]
+            badd = None
+            for x in gl.sample_times(pl + [rt], raster):
+                if min(abs(x - j1r), abs(x - j2r)) <= Fraction(1, 10 ** 12):
+                    continue
+                # stay away from the discontinuous ends of the displaced ramp (binary64 noise in the corner times)
+                if min(abs(x - j2r - dsh), abs(x - j2r - dsh - F(g.fall_time))) <= Fraction(1, 10 ** 12):
+                    continue
+                lhs = sum(gl.pw_eval(p_, x) for p_ in pl) - gl.pw_eval(rt, x)
+                rhs = gl.pw_eval(ramp, x - j2r - dsh) - gl.pw_eval(ramp, x - j2r)
+                if not gl.close(lhs, rhs, sc * 10):
+                    badd = {'t': float(x), 'parts_minus_rounded_trapezoid': float(lhs), 'expected': float(rhs),
+                            'total_minus_rounded_total': float(dsh)}
+                    break
+            if badd:
+                ctx.fail('C18/split-offraster-discrepancy', c, badd)
+                continue
+            ctx.count('split3.offraster.shift_%s' % ('zero' if abs(dsh) < Fraction(1, 10 ** 12) else 'nonzero'))
         if not c.get('offraster'):
             whole = gl.corners(before, raster)
             pl = [gl.corners(p, raster) for p in parts]
@@ -446,6 +482,8 @@ def gen_split3_cases(rng, n):
             c = {'stream': 'split3', 'sys': sysd, 'g': gen_ext(rng, sysd)}
         else:
             c = {'stream': 'split3', 'sys': sysd, 'g': gen_arb(rng, sysd)}
+        if rng.random() < 0.15:
+            c['default_sys'] = True      # system taken from the library default
         cs.append(c)
     return cs
 
@@ -470,7 +508,7 @@ def run_splitat(ctx, cases):
         tp = c['tp']
         line = 'go.splitat %s %s %s' % (gl.enc_sys(system), gl.enc_grad(g), qtok(F(tp)))
         try:
-            res = pp.split_gradient_at(g, tp, system)
+            res = gl.call_with_default(system, c.get('default_sys'), pp.split_gradient_at, g, tp)
             err = None
         except Exception as e:
             res, err = None, e
@@ -492,6 +530,8 @@ def run_splitat(ctx, cases):
         where = ('after-end' if K >= ke else 'at-or-before-0' if K <= 0 else 'at-start' if K == kd else
                  'in-delay' if K < kd else 'inside')
         ctx.count('splitat.%s.%s%s' % (kind, where, '.offraster' if c.get('offraster') else ''))
+        if c.get('default_sys'):
+            ctx.count('splitat.system_from_library_default')
         model_cmp = where in ('inside', 'in-delay') or (where == 'after-end' and K > ke)
         if c.get('offraster') or c.get('malformed'):
             if c.get('offraster'):
@@ -585,9 +625,13 @@ def gen_splitat_cases(rng, n_grads, per_grad):
             rest = [x for x in allk if x not in must]
             rng.shuffle(rest)
             allk = must + rest[:max(0, per_grad - len(must))]
+        dflt = rng.random() < 0.15
         for K in allk:
             jit = rng.choice([0.0, 0.0, 0.0, 0.0, 0.2, -0.2, 0.31])
-            cs.append({'stream': 'splitat', 'sys': sysd, 'g': g, 'K': K, 'tp': (K + jit) * r if jit else K * r})
+            c = {'stream': 'splitat', 'sys': sysd, 'g': g, 'K': K, 'tp': (K + jit) * r if jit else K * r}
+            if dflt:
+                c['default_sys'] = True  # system taken from the library default (Opts.set_as_default)
+            cs.append(c)
     return cs
 
 
@@ -835,6 +879,17 @@ def gen_modaxis_cases(rng, n):
             g = gen_trap(rng, sysd) if k < 0.5 else gen_ext(rng, sysd, zero_ends=True) if k < 0.8 else \
                 gen_arb(rng, sysd, zero_ends=True)
             pool.append(g)
+        # mirror images on the same channel: a flip then turns one library row into another existing row
+        for g in list(pool):
+            if rng.random() < 0.35:
+                h = dict(g)
+                if h['kind'] == 'trap':
+                    h['amp'] = -h['amp']
+                elif h['kind'] == 'ext':
+                    h['amps'] = [-a for a in h['amps']]
+                else:
+                    h['wf'] = [-a for a in h['wf']]
+                pool.append(h)
         share = rng.random() < 0.2
         blocks = []
         for b in range(rng.randint(1, 6)):
@@ -876,8 +931,82 @@ def block_render(b, raster):
             for ch in gl.CHN}
 
 
+def lib_close(impl, mod):
+    """gradient library of the implementation vs the model's (rows to 1e-12 relative: the model multiplies the
+    shortest-decimal value of each stored double exactly)"""
+    def rows_close(a, b):
+        return len(a) == len(b) and all(abs(float(x) - float(y)) <= 1e-12 * max(abs(float(x)), abs(float(y)), 1e-30)
+                                        or float(x) == float(y) for x, y in zip(a, b))
+    if [i for i, _ in impl['data']] != [i for i, _ in mod['data']]:
+        return 'data ids %s vs model %s' % ([i for i, _ in impl['data']], [i for i, _ in mod['data']])
+    for (i, a), (_, b) in zip(impl['data'], mod['data']):
+        if not rows_close(a, b):
+            return 'data[%d] %s vs model %s' % (i, a, [float(x) for x in b])
+    if sorted(impl['type']) != sorted(mod['type']):
+        return 'types differ'
+    if [i for _, i in impl['keymap']] != [i for _, i in mod['keymap']]:
+        return 'keymap ids (in order) %s vs model %s' % ([i for _, i in impl['keymap']], [i for _, i in mod['keymap']])
+    for (a, i), (b, _) in zip(impl['keymap'], mod['keymap']):
+        if not rows_close(a, b):
+            return 'keymap key of id %d: %s vs model %s' % (i, a, [float(x) for x in b])
+    if impl['next'] != mod['next']:
+        return 'next_free_ID %d vs model %d' % (impl['next'], mod['next'])
+    return None
+
+
+def compare_modaxis_model(ctx, jobs):
+    lines = [l for _, ml, _, _ in jobs for l in ml]
+    outs = ctx.model(lines)
+    k = 0
+    for c, ml, mafter, err in jobs:
+        for j in range(len(ml)):
+            o = outs[k]
+            k += 1
+            if j >= len(mafter):
+                break
+            t = Toks(o)
+            tag = t.next()
+            mcls = t.next() if tag == 'ERR' else None
+            last = j == len(mafter) - 1
+            ierr = err if last else None
+            icls = None if ierr is None else ('MAShared' if isinstance(ierr, RuntimeError) else
+                                              'MAEmpty' if isinstance(ierr, IndexError) else
+                                              'MAKey' if isinstance(ierr, KeyError) else 'MAAxis')
+            if mcls != icls:
+                ctx.mismatch('modaxis', c, {'call': j, 'impl': repr(ierr), 'model': o[:40]})
+                break
+            mlib = sm.p_lib(t)
+            ncache = t.int()
+            d = lib_close(mafter[j][0], mlib)
+            if d:
+                ctx.mismatch('modaxis', c, {'call': j, 'grad_library': d})
+                break
+            if mcls is None and (ncache != 0 or mafter[j][1] != 0):
+                ctx.mismatch('modaxis', c, {'call': j, 'cache_entries_model': ncache, 'cache_entries_impl': mafter[j][1]})
+                break
+            after = t.list(lambda: t.opt(lambda: sm.p_dblock(t)))
+            expect = t.list(lambda: t.opt(lambda: sm.p_dblock(t)))
+            if mcls is None and after != expect:
+                # run-time instance of Theorem C18_mod_grad_axis_decodes_scaled
+                ctx.mismatch('modaxis-decode', c, {'call': j, 'what': 'model decode after != scaled decode before'})
+                break
+        else:
+            continue
+        k += len(ml) - (j + 1)
+
+
 def run_modaxis(ctx, cases):
     import pypulseq as pp
+    import seqmodel as sm_
+    model_jobs = []
+    try:
+        _run_modaxis(ctx, cases, pp, model_jobs)
+    finally:
+        if model_jobs and ctx.model_available:
+            compare_modaxis_model(ctx, model_jobs)
+
+
+def _run_modaxis(ctx, cases, pp, model_jobs):
     for c in cases:
         system = gl.make_system(c['sys'])
         raster = c['sys']['raster']
@@ -900,14 +1029,25 @@ def run_modaxis(ctx, cases):
         shared = bool(sel & oth)
         reps = 2 if c['twice'] else 1
         err = None
+        mlines, mafter = [], []
         try:
             for _ in range(reps):
-                if c['flip']:
-                    seq.flip_grad_axis(c['axis'])
-                else:
-                    seq.mod_grad_axis(c['axis'], c['mod'])
+                if ctx.model_available:
+                    mlines.append('ma.run %s %d %d %s %s' % (sm.core_tokens(seq), col, 1 if c['flip'] else 0,
+                                                             qtok(sm.F(c['mod'])), zlist(range(1, nb + 1))))
+                try:
+                    if c['flip']:
+                        seq.flip_grad_axis(c['axis'])
+                    else:
+                        seq.mod_grad_axis(c['axis'], c['mod'])
+                finally:
+                    mafter.append((sm.lib_dump(seq.grad_library), len(seq.block_cache)))
+                    if len(seq.grad_library.keymap) < len(seq.grad_library.data):
+                        ctx.count('modaxis.key_collision_after_call')
         except Exception as e:
             err = e
+        if mlines:
+            model_jobs.append((c, mlines, mafter, err))
         m = F(c['mod']) ** reps
         ctx.evaluated(('modaxis', str(c)), nontrivial=err is None and bool(sel))
         ctx.count('modaxis.%s%s%s' % ('shared' if shared else 'plain', '.cache' if c['cache'] else '',
